@@ -65,6 +65,18 @@ def h_cert(eng, case):
         key_name = [Component.from_str('KEY') if s == 'KEY' else bwrap([8, 1] + blist(eng.bytes('kn%d' % i, 1)))
                     for i, s in enumerate(case['key_shape'])]
         ncomp = len(key_name)
+    rep = case.get('rep')
+    if rep:
+        # other accepted representations of components (a name taken from a parsed packet is a list of memoryviews)
+        from symex.api import mview
+        from symex.core import s_bytearray
+        conv = mview if rep == 'mv' else s_bytearray
+        key_name_in = [conv(c) for c in key_name]
+        if rep == 'mv' and case.get('tuple'):
+            key_name_in = tuple(key_name_in)
+    else:
+        conv = lambda x: x
+        key_name_in = key_name
     pk = case['pubkey']
     if isinstance(pk, int) and pk <= 3:
         pub = eng.bytes('pub', pk)
@@ -82,16 +94,16 @@ def h_cert(eng, case):
         d1 = _dt.datetime(*DATES[case['d1']])
     try:
         if mode == 'derive_text':
-            name, wire = sv.derive_cert(key_name, 'issuer1', pub, signer, d0, case['secs'])
+            name, wire = sv.derive_cert(key_name_in, 'issuer1', pub, signer, d0, case['secs'])
             issuer = bytes(Component.from_str('issuer1'))
             exp_nb, exp_na = fmt(d0), fmt(d0 + _dt.timedelta(seconds=case['secs']))
         elif mode == 'derive_comp':
             ic = bwrap([8, 2] + blist(eng.bytes('issuer', 2)))
-            name, wire = sv.derive_cert(key_name, ic, pub, signer, d0, case['secs'])
+            name, wire = sv.derive_cert(key_name_in, conv(ic), pub, signer, d0, case['secs'])
             issuer = ic
             exp_nb, exp_na = fmt(d0), fmt(d0 + _dt.timedelta(seconds=case['secs']))
         elif mode == 'new':
-            name, wire = sv.new_cert(key_name, Component.from_str('x'), pub, signer, d0, d1)
+            name, wire = sv.new_cert(key_name_in, conv(Component.from_str('x')), pub, signer, d0, d1)
             issuer = bytes(Component.from_str('x'))
             exp_nb, exp_na = fmt(d0), fmt(d1)
         else:
@@ -105,11 +117,11 @@ def h_cert(eng, case):
             sv.datetime = FakeDT
             try:
                 if mode == 'self':
-                    name, wire = sv.self_sign(key_name, pub, signer)
+                    name, wire = sv.self_sign(key_name_in, pub, signer)
                     issuer = bytes(Component.from_str('self'))
                     exp_nb, exp_na = b'19700101T000000', fmt(now.replace(year=now.year + 20))
                 else:
-                    name, wire = sv.sign_req(key_name, pub, signer)
+                    name, wire = sv.sign_req(key_name_in, pub, signer)
                     issuer = bytes(Component.from_str('cert-request'))
                     exp_nb, exp_na = fmt(now), fmt(now + _dt.timedelta(days=10))
             finally:
@@ -223,6 +235,13 @@ def cases(tier, seed):
                   ['KEY', 'KEY', 'KEY', 's'], ['s', 'KEY', 'KEY', 's', 's']):
         for mode in ('new', 'derive_text', 'derive_comp', 'self', 'sign_req'):
             cs.append(('cert', dict(base, mode=mode, key_shape=shape, signer='hmac'), {'weight': 3}))
+    # components handed over as memoryview / bytearray (e.g. taken from a parsed certificate name)
+    for rep in ('mv', 'ba'):
+        for mode in ('new', 'derive_text', 'derive_comp', 'self', 'sign_req'):
+            cs.append(('cert', dict(base, mode=mode, rep=rep, signer='hmac'), {'weight': 3}))
+            cs.append(('cert', dict(base, mode=mode, rep=rep, signer='ecdsa', rmin=70,
+                                    key_shape=['s', 'KEY', 's']), {'weight': 3}))
+    cs.append(('cert', dict(base, mode='derive_comp', rep='mv', tuple=True, signer='hmac'), {'weight': 3}))
     # year boundaries: start and end instants on both sides
     bd = boundary_dates(tier)
     for i in range(0, len(bd) - 1):
